@@ -55,6 +55,16 @@ CHECKS = {
         note="Trusted: Lean kernel, allowed axioms, extractor, streams, hooks (VerifParseTypeString/Arguments/ReturnType, VerifEncodeT). Assumed and only validated end-to-end: output is a function of the parsed values.",
         technique="Lean 4 proof (equalities over all plain names, wf recursion) + regenerated table + differential stream + two-notation end-to-end comparison",
     ),
+    "C14": dict(
+        category="proof",
+        text="Full for the ordering step: prioritizeArgTs is specified as ANY result `positional ++ s` with s a key-sorted permutation of the keyword arguments (no assumption on sort.Slice's "
+             "algorithm or stability). Lean proves that two call sites with the same positionals and the same multiset of keyword arguments with distinct keys have exactly one admissible result, "
+             "so the binder, arity/type checks and propagation see identical inputs; also total/antisymmetric/transitive order lemmas for Go string comparison and that the executable insertion sort is admissible. "
+             "Tied by the prio/pdef stream against the real functions; end-to-end every permutation of 2-5 keyword arguments on user-defined methods gives identical ti / ti -i output.",
+        design="DESIGN.md §4 C14",
+        note="Trusted: Lean kernel, allowed axioms, stream, hooks. Outside the statement: duplicate keys. Not modelled: collectArgs and the binder (end-to-end only).",
+        technique="Lean 4 proof (uniqueness of sorted permutations via List.Perm.eq_of_pairwise) + differential stream + exhaustive permutation end-to-end runs",
+    ),
 }
 
 PENDING_REASON = "check not built yet in this session (see DESIGN.md §4 for the planned Lean model and theorem); not claimed until its check exists"
